@@ -537,13 +537,15 @@ def gen_store_case(rng, prop, tier):
         render_odd(rng, w, knobs)
         if rng.random() < 0.12:
             knobs["no_contig_lines"] = w["no_contig_lines"] = True
+        elif len(w["chroms"]) > 1 and rng.random() < 0.25:
+            knobs["omit_contig_lines"] = w["omit_contig_lines"] = [rng.choice(w["chroms"])["name"]]
         if rng.random() < 0.15:
             knobs["initial_gz"] = True
         n = rng.choice([1, 2, 3])
         ops = [{"op": "unphase"} for _ in range(n)]
         return {"machine": "store", "world": W.clean_world(w), "ops": ops, "knobs": knobs, "state0": []}
 
-    w = W.gen_core(rng, first_base_variant=0.15)
+    w = W.gen_core(rng, first_base_variant=0.15, pos_coincidence=0.4)
     W.add_alt_truth(rng, w, "alt", flip_rate=rng.choice([0.2, 0.5, 0.8]))
     depth = rng.choice([2, 3, 5, 8, 12, 20, 30])
     W.gen_library(rng, w, "L0", truth="main", depth=depth)
@@ -563,6 +565,8 @@ def gen_store_case(rng, prop, tier):
     state0 = render_initial(rng, w, prop, knobs)
     if prop == "C13" and rng.random() < 0.1:
         knobs["no_contig_lines"] = w["no_contig_lines"] = True
+    elif prop == "C13" and len(w["chroms"]) > 1 and rng.random() < 0.2:
+        knobs["omit_contig_lines"] = w["omit_contig_lines"] = [rng.choice(w["chroms"])["name"]]
     if rng.random() < 0.12:
         knobs["initial_gz"] = True
     samples = w["samples"]
@@ -1043,6 +1047,8 @@ class StoreRun:
             self.stats.inc("unphase_input_shape_" + sh)
         if self.world.get("no_contig_lines"):
             self.stats.inc("unphase_input_without_contig_lines")
+        if self.world.get("omit_contig_lines"):
+            self.stats.inc("unphase_input_with_partial_contig_lines")
         from whatshap.cli import CommandLineError
 
         try:
